@@ -109,6 +109,83 @@ Definition event_ok (s : state) (e : event) : Prop :=
   | _ => True
   end.
 
+(* the handler part of a step, and a step with an arbitrary amount of fuel for the work loop *)
+Definition handler_of (s : state) (e : event) (fresh : uuid) (bserial : option N) : outcome M :=
+  let m0 := {| ms := s; mw := work0; mo := [] |} in
+  match e with
+  | NewConnection c ver =>
+      match conns s !! c with
+      | Some _ => Panic 40
+      | None => Done (m0 <| ms; conns ::= <[c := {| cs_ver := ver; cs_alive := true; cs_calls := ∅ |}]> |>
+                         <| ms; st; n_conns ::= N.succ |>)
+      end
+  | ConnectionShutdown c => Done (push_remove m0 c false)
+  | Message c x =>
+      match handle m0 c x fresh bserial with
+      | Done m => Done m
+      | Fail m => Done (push_remove m c false)
+      | Panic site => Panic site
+      end
+  | ShutdownBroker =>
+      Done (foldr (fun p m => push_remove m p.1 true) m0 (map_to_list (conns s)) <| ms; shutdown_now := true |>)
+  | ShutdownIdleBroker => Done (m0 <| ms; shutdown_idle := true |>)
+  | ShutdownConnection c => Done (push_remove m0 c true)
+  | DropTask c =>
+      Done (match conns s !! c with
+            | Some cs => m0 <| ms; conns ::= <[c := cs <| cs_alive := false |>]> |>
+            | None => m0 end)
+  end.
+
+Definition step_fuel (F : M → nat) (s : state) (e : event) (fresh : uuid) (bserial : option N)
+  : outcome (state * list out) :=
+  match handler_of s e fresh bserial with
+  | Done m | Fail m =>
+      match settle (F m) m with
+      | Done m' | Fail m' => Done (ms m', mo m')
+      | Panic site => Panic site
+      end
+  | Panic site => Panic site
+  end.
+
+Lemma step_step_fuel s e fresh bserial :
+  step s e fresh bserial = step_fuel (fun m => fuel_for (ms m)) s e fresh bserial.
+Proof. reflexivity. Qed.
+
+Lemma handler_good s e fresh bserial :
+  Inv s → fresh ∉ cookies_in_use s → bserial_ok s bserial → event_ok s e →
+  ∃ m, handler_of s e fresh bserial = Done m ∧ MI m.
+Proof.
+  intros H Hf Hb He. unfold handler_of.
+  set (m0 := {| ms := s; mw := work0; mo := [] |}).
+  assert (MI m0) as H0 by exact H.
+  destruct e as [c ver|c|c x| | |c|c].
+  - cbn in He. rewrite He. eexists. split; [done|]. by apply MI_new_connection.
+  - eexists. split; [done|]. eapply MI_quiet; [|exact H0]. done.
+  - pose proof (handle_good m0 c x fresh bserial H0 eq_refl Hf Hb He) as Hg.
+    destruct (handle m0 c x fresh bserial) as [m|m|]; cbn in *; [eauto| |done].
+    eexists. split; [done|]. eapply MI_quiet; [|exact Hg]. done.
+  - eexists. split; [done|]. apply (MI_flag _ (fun s => s <| shutdown_now := true |>)); [done|].
+    eapply MI_quiet; [apply push_all_quiet|done].
+  - eexists. split; [done|]. by apply (MI_flag _ (fun s => s <| shutdown_idle := true |>)).
+  - eexists. split; [done|]. eapply MI_quiet; [|exact H0]. done.
+  - eexists. split; [done|]. destruct (conns s !! c) as [cs|] eqn:Ec; [|done]. by apply MI_drop_task.
+Qed.
+
+Theorem step_fuel_spec F s e fresh bserial :
+  Inv s → fresh ∉ cookies_in_use s → bserial_ok s bserial → event_ok s e →
+  match step_fuel F s e fresh bserial with
+  | Done (s', _) => Inv s'
+  | Fail _ => False
+  | Panic site => site = 0
+  end.
+Proof.
+  intros H Hf Hb He. unfold step_fuel.
+  destruct (handler_good s e fresh bserial H Hf Hb He) as (m & -> & Hr).
+  pose proof (settle_spec (F m) m Hr) as Hs.
+  destruct (settle (F m) m) as [m'|m'|site]; [|done..].
+  destruct Hs as (H' & _ & Hq & Ha). unfold MI, MX, MO in H'. rewrite Hq, Ha in H'. exact H'.
+Qed.
+
 Theorem step_spec s e fresh bserial :
   Inv s → fresh ∉ cookies_in_use s → bserial_ok s bserial → event_ok s e →
   match step s e fresh bserial with
@@ -116,38 +193,13 @@ Theorem step_spec s e fresh bserial :
   | Fail _ => False
   | Panic site => site = 0
   end.
-Proof.
-  intros H Hf Hb He. unfold step.
-  set (m0 := {| ms := s; mw := work0; mo := [] |}).
-  assert (MI m0) as H0 by exact H.
-  match goal with |- match (match ?r with _ => _ end) with _ => _ end => assert (good r) as Hr end.
-  { destruct e as [c ver|c|c x| | |c|c].
-    - cbn in He. rewrite He. cbn. by apply MI_new_connection.
-    - cbn. eapply MI_quiet; [|exact H0]. done.
-    - pose proof (handle_good m0 c x fresh bserial H0 eq_refl Hf Hb He) as Hg.
-      destruct (handle m0 c x fresh bserial); cbn in *; [done| |done].
-      eapply MI_quiet; [|exact Hg]. done.
-    - cbn. apply (MI_flag _ (fun s => s <| shutdown_now := true |>)); [done|].
-      eapply MI_quiet; [apply push_all_quiet|done].
-    - cbn. by apply (MI_flag _ (fun s => s <| shutdown_idle := true |>)).
-    - cbn. eapply MI_quiet; [|exact H0]. done.
-    - cbn. destruct (conns s !! c) as [cs|] eqn:Ec; [|done]. by apply MI_drop_task. }
-  match goal with |- match (match ?r with _ => _ end) with _ => _ end => destruct r as [m|m|site] end;
-    cbn in Hr; [| |done].
-  - pose proof (settle_spec (fuel_for (ms m)) m Hr) as Hs.
-    destruct (settle (fuel_for (ms m)) m) as [m'|m'|site]; [|done..].
-    destruct Hs as (H' & _ & Hq & Ha). unfold MI, MX, MO in H'. rewrite Hq, Ha in H'. exact H'.
-  - pose proof (settle_spec (fuel_for (ms m)) m Hr) as Hs.
-    destruct (settle (fuel_for (ms m)) m) as [m'|m'|site]; [|done..].
-    destruct Hs as (H' & _ & Hq & Ha). unfold MI, MX, MO in H'. rewrite Hq, Ha in H'. exact H'.
-Qed.
+Proof. rewrite step_step_fuel. apply step_fuel_spec. Qed.
 
 Lemma legal_split s i :
   legal s i → i_fresh i ∉ cookies_in_use s ∧ bserial_ok s (i_bserial i) ∧ event_ok s (i_ev i).
 Proof.
   intros (H1 & H2 & H3 & H4). split; [done|]. split; [done|].
-  destruct (i_ev i) as [c ver|c|c x| | |c|c]; try done.
-  cbn. destruct x; try done; destruct e; done.
+  destruct (i_ev i) as [c ver|c|c x| | |c|c]; done.
 Qed.
 
 Theorem inv_step s i s' o :
